@@ -194,7 +194,29 @@ func ruleC19(c *Ctx) {
 	}
 	c.judge(stP, "TABLE-NN", "three penalties used consistently for dH and dS", rets[0].Pos(), "each of three distinct penalty values contributes its H to dH and its S to dS under the same condition", whyP)
 	// salt term: only in dS
-	salt := "binop[*](binop[*](const[0.368], conv[float64](binop[-](call[builtin:len](" + up + "), const[1]))), call[math.Log](binop[+](binop[*](const[140], param[3]), param[2])))"
+	// the length of a text does not depend on its letter case or on its representation: len(ToUpper(x)),
+	// len([]byte(x)) and len(x) are one term here
+	lenNorm := func(t *Term) *Term {
+		var rw func(x *Term) *Term
+		rw = func(x *Term) *Term {
+			if x == nil {
+				return nil
+			}
+			args := make([]*Term, len(x.Args))
+			for i, a := range x.Args {
+				args[i] = rw(a)
+			}
+			if x.Op == "call" && x.Name == "builtin:len" && len(args) == 1 && args[0].Op == "call" && (args[0].Name == "strings.ToUpper" || args[0].Name == "strings.ToLower") && len(args[0].Args) == 1 {
+				args = []*Term{args[0].Args[0]}
+			}
+			return &Term{Op: x.Op, Name: x.Name, Args: args, V: x.V, Cyc: x.Cyc}
+		}
+		return rw(normText(t))
+	}
+	salt := lenNorm(parseTerm("binop[*](binop[*](const[0.368], conv[float64](binop[-](call[builtin:len](" + up + "), const[1]))), call[math.Log](binop[+](binop[*](const[140], param[3]), param[2])))")).String()
+	for i := range otherS {
+		otherS[i].T = lenNorm(otherS[i].T)
+	}
 	stSalt, whySalt := unknown, ""
 	var oh, os []string
 	for _, k := range otherH {
@@ -231,14 +253,32 @@ func ruleC19(c *Ctx) {
 	stN, whyN := unknown, fmt.Sprintf("%d/%d nearest-neighbour lookups feed dH/dS, the model needs 1/1 inside the loop", len(nnH), len(nnS))
 	var nnTable string
 	if len(nnH) == 1 && len(nnS) == 1 && nnH[0].InLoop && nnS[0].InLoop {
-		lk := nnH[0].T.Args[0]
+		lk := normText(nnH[0].T.Args[0])
+		// windows cut from the text as typed are as good as windows of the upper-cased text when the
+		// table spells its keys in both cases
+		if lk.Op == "lookup" && len(lk.Args) == 2 && lk.Args[0].Op == "global" && lk.Args[1].Op == "slice" && lk.Args[1].Args[0].String() == "param[0]" {
+			switch keysCase(c.W, lk.Args[0].V) {
+			case "both cases":
+				lk = parseTerm(strings.Replace(lk.String(), "slice(param[0],", "slice("+up+",", 1))
+				lk.Args[0].V = normText(nnH[0].T.Args[0]).Args[0].V
+			case "":
+				whyN = "neighbour windows are cut from the text as typed; the table's keys are not all constants, whether it knows both cases is not read"
+				lk = &Term{Op: "unknown", Name: "table"}
+			}
+		}
 		switch {
-		case nnS[0].T.Args[0].String() != lk.String():
+		case lk.Op == "unknown":
+		case normText(nnS[0].T.Args[0]).String() != normText(nnH[0].T.Args[0]).String():
 			stN, whyN = broken, "dH and dS look up different table entries: "+short(lk.String())+" vs "+short(nnS[0].T.Args[0].String())
 		case lk.Op != "lookup" || lk.Args[0].Op != "global" || lk.Args[1].Op != "slice":
 			whyN = "the neighbour lookup is " + short(lk.String())
 		case lk.Args[1].Args[0].String() != up:
 			stN, whyN = stateOf(false, vocabOf(up), lk.Args[1].Args[0]), "neighbour windows are cut from "+short(lk.Args[1].Args[0].String())+", not from the upper-cased sequence"
+			if lk.Args[1].Args[0].contains(func(x *Term) bool {
+				return x.Op == "phi" || x.Op == "anyof" || x.Op == "partial" || x.Op == "each" || x.Op == "alloc" || x.Op == "rec"
+			}) {
+				stN = unknown // a window assembled letter by letter: where its letters come from is not one source term
+			}
 		default:
 			nnTable = lk.Args[0].Name
 			lo, hi := lk.Args[1].Args[1], lk.Args[1].Args[2]
@@ -437,26 +477,11 @@ func santaLuciaDepend(c *Ctx, sl *ssa.Function, tb *TermBuilder, dHv ssa.Value) 
 	} else {
 		c.check(!concInDH, "DEPEND", "dH independent of concentrations", sl.Pos(), "no concentration parameter occurs in any dH contribution or its condition", "a concentration parameter flows into dH")
 	}
-	rawUse := rawParamUses(tb, sl, 0, "strings.ToUpper")
-	var rawBad, rawUnknown []string
-	for _, u := range rawUse {
-		switch {
-		case u == "builtin:len" || u == "strings.ToLower":
-		case strings.HasPrefix(u, "poly/primers."):
-			rawUnknown = append(rawUnknown, u)
-		default:
-			rawBad = append(rawBad, u)
-		}
+	stRaw, whyRaw := judgeCase(c.W, sl, 0)
+	if stRaw == broken {
+		whyRaw += ": lower-case input changes the result (e.g. a lower-case self-complementary oligo is not recognised as such)"
 	}
-	switch {
-	case len(rawBad) > 0:
-		c.bad("DEPEND", "sequence used only through ToUpper", sl.Pos(), "the sequence as typed (not upper-cased) is used by: "+strings.Join(rawBad, ", ")+": lower-case input changes the result (e.g. a lower-case self-complementary oligo is not recognised as such)")
-	case len(rawUnknown) > 0:
-		c.undecided("DEPEND", "sequence used only through ToUpper", sl.Pos(), "the raw sequence is handed to "+strings.Join(rawUnknown, ", "))
-	default:
-		c.ok("DEPEND", "sequence used only through ToUpper", sl.Pos(), "the raw sequence parameter is only ever the operand of strings.ToUpper")
-	}
-
+	c.judge(stRaw, "DEPEND", "sequence used only through ToUpper", sl.Pos(), "the letter case of the sequence reaches no case-sensitive operation", whyRaw)
 }
 
 func santaLuciaRest(c *Ctx, nnTable string) {
